@@ -148,7 +148,7 @@ def mapErrStr : MapErr → String
 def distinctKeys (es : List (Int × Ctx)) : Bool :=
   (es.map (·.1)).eraseDups.length == es.length
 
-def stepMap (toks : List String) : Option String :=
+def stepMap0 (toks : List String) : Option String :=
   match toks with
   | ["mv", pcm, src, height, round, digests, proofs] =>
     match mapAll parseEntry (splitSemi pcm), hexOpt src, height.toInt?, round.toInt?,
@@ -184,6 +184,25 @@ def stepMap (toks : List String) : Option String :=
         | none => "err-notfound")
     | _, _ => some "bad-op"
   | _ => none
+
+def stepMap (toks : List String) : Option String :=
+  match toks with
+  | ["mvu", pcm, src, height, round, digests, proofs, upd] =>
+    -- the vote verified, the map Updated (inactivated/changed network types), the SAME map
+    -- verifies again: Update returns a new map and never changes the receiver
+    match stepMap0 ["mv", pcm, src, height, round, digests, proofs], mapAll parseEntry (splitSemi pcm),
+        upd.splitOn "/" with
+    | some r, some es, [ina, chg] =>
+      if r = "bad-op" then some "bad-op" else
+      let ids := fun (t : String) => mapAll (fun (x : String) => x.toInt?) (splitList t)
+      match ids ina, ids chg with
+      | some inact, some changed =>
+        let kept := es.filter (fun e => ¬ inact.contains e.1)
+        let strs := kept.map (fun e => s!"{e.1}:{e.2.vals.length + (if changed.contains e.1 then 1 else 0)}")
+        some (r ++ " | " ++ r ++ " | new " ++ (if strs.isEmpty then "-" else ",".intercalate strs))
+      | _, _ => some "bad-op"
+    | _, _, _ => some "bad-op"
+  | _ => stepMap0 toks
 
 def step (s : Unit) (toks : List String) : Unit × String :=
   let out := match stepMap toks with
